@@ -543,7 +543,7 @@ def run(ctx):
                 ctx.violation({'fn': 'Relocation.apply', 'reloc': KINDS[kind][3], 'arch': KINDS[kind][0], 'cls': KINDS[kind][2],
                                'args': {'sym_value': S, 'data': list(data), 'reloc_value': P, 'addend': A},
                                'distance': S - P, 'result': list(out.v), 'reads': orec['reads'], 'expected': orec['expected'],
-                               'what': v[len('violation:'):], 'key': 'apply:%s:%s' % (kind, v[10:40]),
+                               'what': v[len('violation:'):], 'key': 'apply:%s' % kind,
                                'how_to_replay': '%s.%s(None, addend=%d).apply(%d, bytearray(%r), %d); decode with '
                                                 'tools/props/reloc_common.py (pairs: lo half applied to its template at P+4)'
                                                 % (KINDS[kind][1], KINDS[kind][2], A, S, list(data), P)})
